@@ -46,9 +46,14 @@ def _run_impl(case: dict) -> list:
     sleeps = []
     obs = []
 
+    via = case.get('via', 'direct')          # direct: the harness calls take_tokens; send_file / receive_file: the real
+    down = via == 'receive_file'             # chunk loops of a FILE PeerConnection do, one chunk per poll op
+    lim_attr = 'download_rate_limiter' if down else 'upload_rate_limiter'
+
     async def main(loop):
         gates = {}              # pid -> future: the poller is asleep inside take_tokens
-        tasks = {}              # pid -> task of its pending take_tokens
+        idle = {}               # pid -> future: the chunk loop finished a chunk and waits to start the next (via != direct)
+        tasks = {}              # pid -> task (direct: the pending take_tokens; otherwise the whole send_file/receive_file)
         bound = {}              # pid -> limiter object of the pending call
         order = {}              # id(limiter) -> pids in order of arrival (harness bookkeeping)
         grants = []
@@ -60,13 +65,58 @@ def _run_impl(case: dict) -> list:
             gates[pid] = fut
             await fut
 
+        def granted(pid, g):
+            grants.append((pid, g))
+            lim = bound.pop(pid, None)
+            if lim is not None and pid in order.get(id(lim), []):
+                order[id(lim)].remove(pid)
+
         async def request(pid, lim):
             g = await lim.take_tokens()
-            grants.append((pid, g))
             tasks.pop(pid, None)
-            bound.pop(pid, None)
-            if pid in order.get(id(lim), []):
-                order[id(lim)].remove(pid)
+            granted(pid, g)
+
+        async def park(pid):
+            fut = loop.create_future()
+            idle[pid] = fut
+            await fut
+
+        class Wire:                       # writer of an uploading file connection: a chunk on the wire = a grant
+            def __init__(self, pid):
+                self.pid = pid
+            def write(self, data):
+                granted(self.pid, len(data))
+            async def drain(self):
+                await park(self.pid)
+            def close(self):
+                pass
+            def is_closing(self):
+                return False
+            async def wait_closed(self):
+                return None
+            def get_extra_info(self, k, d=None):
+                return ('10.0.0.1', 1)
+
+        class Src:
+            async def read(self, n):
+                return b'x' * n
+
+        class Feed:                       # reader of a downloading file connection: as many bytes as asked for
+            async def read(self, n):
+                return b'y' * n
+
+        class Sink:
+            def __init__(self, pid):
+                self.pid = pid
+            async def write(self, data):
+                granted(self.pid, len(data))
+                await park(self.pid)
+
+        def start_chunks(pid):
+            c = conns[pid]
+            co = c.receive_file(Sink(pid), 1 << 62) if down else c.send_file(Src())
+            tasks[pid] = asyncio.ensure_future(co)
+            tasks[pid].set_name(str(pid))
 
         rl.asyncio = _AsyncioProxy(fake_sleep)
         net = None
@@ -85,7 +135,7 @@ def _run_impl(case: dict) -> list:
                 t.cancel()
             if tasks:
                 await asyncio.gather(*tasks.values(), return_exceptions=True)
-            tasks.clear(); gates.clear(); bound.clear(); order.clear()
+            tasks.clear(); gates.clear(); bound.clear(); order.clear(); idle.clear()
 
         for op in case['ops']:
             if op[0] == 'new':
@@ -93,24 +143,38 @@ def _run_impl(case: dict) -> list:
                 await drop_pending()
                 clock.ticks = now
                 s = Settings(credentials={'username': 'u', 'password': 'p'},
-                             network={'limits': {'upload_speed_kbps': kbps, 'download_speed_kbps': 0}})
+                             network={'limits': {'upload_speed_kbps': 0 if down else kbps,
+                                                 'download_speed_kbps': kbps if down else 0}})
                 net = Network(s, EventBus())
-                conns = [types.SimpleNamespace(upload_rate_limiter=net._upload_rate_limiter,
-                                               download_rate_limiter=net._download_rate_limiter)
-                         for _ in range(4)]
-                net.peer_connections = conns
-                objs[:] = [net._upload_rate_limiter]
+                cur = net._download_rate_limiter if down else net._upload_rate_limiter
+                if via == 'direct':
+                    conns = [types.SimpleNamespace(upload_rate_limiter=net._upload_rate_limiter,
+                                                   download_rate_limiter=net._download_rate_limiter)
+                             for _ in range(4)]
+                    net.peer_connections = conns
+                else:
+                    from aioslsk.network.connection import PeerConnection, ConnectionState
+                    conns = []
+                    for pid in range(4):
+                        c = PeerConnection('10.0.0.2', 1000 + pid, net, connection_type='F', username=f'p{pid}')
+                        c._writer = Wire(pid)
+                        c._reader = Feed()
+                        c.state = ConnectionState.CONNECTED
+                        net.peer_connections.append(c)
+                        net._finalize_peer_connection(c)       # the real hand-out of the limiter objects
+                        conns.append(c)
+                objs[:] = [cur]
                 obs.append('ok')
             elif op[0] == 'set':
-                net.set_upload_speed_limit(op[1])
-                o = net._upload_rate_limiter
+                (net.set_download_speed_limit if down else net.set_upload_speed_limit)(op[1])
+                o = net._download_rate_limiter if down else net._upload_rate_limiter
                 idx(o)
                 obs.append(f'ok {o.bucket} {_ticks(o.last_refill)}')
             elif op[0] == 'poll':
                 _, pid, dt = op
                 clock.ticks += dt
                 grants.clear()
-                if pid in tasks:
+                if pid in bound:
                     o = bound[pid]
                     if pid in gates:
                         gates.pop(pid).set_result(None)
@@ -118,14 +182,23 @@ def _run_impl(case: dict) -> list:
                     else:
                         status = 'blocked'
                 else:
-                    o = conns[pid].upload_rate_limiter
+                    o = getattr(conns[pid], lim_attr)
                     locked = hasattr(o, '_lock') and o._lock.locked()
                     status = 'blocked' if locked else 'polled'
                     bound[pid] = o
                     order.setdefault(id(o), []).append(pid)
-                    tasks[pid] = asyncio.ensure_future(request(pid, o))
-                    tasks[pid].set_name(str(pid))
+                    if via == 'direct':
+                        tasks[pid] = asyncio.ensure_future(request(pid, o))
+                        tasks[pid].set_name(str(pid))
+                    elif pid in idle:
+                        idle.pop(pid).set_result(None)          # next chunk: the loop looks its limiter up itself
+                    else:
+                        start_chunks(pid)
                 await simloop.settle()
+                dead = [q for q, t in tasks.items() if t.done() and via != 'direct']
+                if dead:
+                    obs.append(f'chunk-loop-ended {dead} {[repr(tasks[q].exception()) if not tasks[q].cancelled() else "cancelled" for q in dead]}')
+                    break
                 holder = [q for q in order.get(id(o), []) if q in gates]
                 queue = [q for q in order.get(id(o), []) if q not in gates]
                 g = ','.join(f'{a}:{b}' for a, b in grants) or '-'
@@ -176,9 +249,195 @@ def _run_free(case: dict) -> dict:
             t.cancel()
         await asyncio.gather(*ts, return_exceptions=True)
         return {'served': {i: len(w) for i, w in waits.items()},
-                'max_wait': {i: (max(w) if w else None) for i, w in waits.items()}, 'stuck': pending}
+                'max_wait': {i: (max(w) if w else None) for i, w in waits.items()}, 'stuck': pending,
+                'interval': rl.INTERVAL, 'quantum': rl.LimitedRateLimiter.MIN_BUCKET_SIZE}
     res, _ = simloop.run(main, wall_timeout=60)        # time.monotonic follows the virtual clock
     return res
+
+
+def _run_wire(case: dict) -> dict:
+    """Monitor-only: real PeerConnection.send_file / receive_file of FILE connections registered with a real
+    Network, real limiter objects and the real asyncio.sleep under virtual time; the limit is changed at run time
+    through Network.set_upload_speed_limit / set_download_speed_limit. Records every chunk put on / taken off
+    the wire with its virtual time."""
+    import asyncio
+    from aioslsk.network.network import Network
+    from aioslsk.network.connection import PeerConnection, ConnectionState
+    from aioslsk.settings import Settings
+    from aioslsk.events import EventBus
+    from vlib import simloop
+    up = case['dir'] == 'up'
+
+    class Wire:
+        def __init__(self, loop, log):
+            self.loop, self.log, self._closed = loop, log, False
+        def write(self, data):
+            self.log.append((self.loop.time(), len(data)))
+        async def drain(self):
+            return None
+        def close(self):
+            self._closed = True
+        def is_closing(self):
+            return self._closed
+        async def wait_closed(self):
+            return None
+        def get_extra_info(self, k, d=None):
+            return ('10.0.0.1', 1)
+
+    class Src:
+        def __init__(self, n):
+            self.left = n
+        async def read(self, n):
+            k = min(n, self.left)
+            self.left -= k
+            return b'x' * k
+
+    class Sink:
+        async def write(self, data):
+            return len(data)
+
+    async def main(loop):
+        t0 = loop.time()
+        lim = {'upload_speed_kbps': case['start'], 'download_speed_kbps': 0} if up else \
+              {'upload_speed_kbps': 0, 'download_speed_kbps': case['start']}
+        net = Network(Settings(credentials={'username': 'u', 'password': 'p'}, network={'limits': lim}), EventBus())
+        log = []
+        done = {}
+        tasks = []
+        for i in range(case['k']):
+            conn = PeerConnection('10.0.0.2', 1000 + i, net, connection_type='F', username=f'p{i}')
+            conn._writer = Wire(loop, log)
+            conn.state = ConnectionState.CONNECTED
+            net.peer_connections.append(conn)
+            net._finalize_peer_connection(conn)
+            if up:
+                co = conn.send_file(Src(case['size']))
+            else:
+                r = asyncio.StreamReader()
+                r.feed_data(b'y' * case['size'])
+                conn._reader = r
+                co = conn.receive_file(Sink(), case['size'], callback=lambda d: log.append((loop.time(), len(d))))
+
+            async def run(i=i, co=co):
+                await asyncio.sleep(case['offsets'][i])
+                await co
+                done[i] = loop.time() - t0
+            tasks.append(asyncio.ensure_future(run()))
+
+        async def control():
+            for at, kbps in case['changes']:
+                await asyncio.sleep(max(0.0, t0 + at - loop.time()))
+                (net.set_upload_speed_limit if up else net.set_download_speed_limit)(kbps)
+        ctl = asyncio.ensure_future(control())
+        await asyncio.sleep(case['seconds'])
+        for t in tasks + [ctl]:
+            t.cancel()
+        await asyncio.gather(*tasks, ctl, return_exceptions=True)
+        return {'log': [(round(t - t0, 6), n) for t, n in log], 'done': done}
+    res, _ = simloop.run(main, wall_timeout=90)
+    return res
+
+
+def _monitor_wire(case: dict, res: dict) -> list[Violation]:
+    """bytes moved by all file connections together in any window inside a period with a positive limit
+    ≤ ∫L dt + max L (+ one grant quantum per connection and per limit change: requests already pending on a replaced
+    limiter object are still served by it; + the known full-bucket quantum); no throttling without a limit; progress."""
+    vs = []
+    changes = [(0.0, case['start'])] + [(a, k) for a, k in case['changes']]
+    def limit_at(t):
+        cur = changes[0][1]
+        for a, k in changes:
+            if a <= t:
+                cur = k
+        return cur * 1024
+    agg: dict = {}
+    for t, b in res['log']:
+        agg[t] = agg.get(t, 0) + b
+    log = sorted(agg.items())
+    n = len(log)
+    q = 128
+    starts = [a for a, _ in changes]
+    lims = [k * 1024 for _, k in changes]
+    def seg_of(t):
+        s_ = 0
+        for m, a in enumerate(starts):
+            if a < t or (a <= t and m == 0):
+                s_ = m
+            elif a == t:                # a chunk at the very instant of a change: judged by the more generous side
+                if lims[s_] != 0 and (lims[m] == 0 or lims[m] > lims[s_]):
+                    s_ = m
+        return s_
+    def F(t):                     # ∫_0^t L
+        tot_, m = 0.0, 0
+        for m in range(len(starts)):
+            end = starts[m + 1] if m + 1 < len(starts) else float('inf')
+            if t <= starts[m]:
+                break
+            tot_ += lims[m] * (min(t, end) - starts[m])
+        return tot_
+    segs = [seg_of(t) for t, _ in log]
+    Fs = [F(t) for t, _ in log]
+    for i in range(n):
+        if lims[segs[i]] == 0:
+            continue
+        tot, mx, si = 0, 0, segs[i]
+        for j in range(i, n):
+            sj = segs[j]
+            if lims[sj] == 0:
+                break
+            if lims[sj] > mx:
+                mx = lims[sj]
+            tot += log[j][1]
+            bound = Fs[j] - Fs[i] + mx + q * (case['k'] + 1) * (sj - si + 1)
+            if tot > bound + 1e-6:
+                t1, t2 = log[i][0], log[j][0]
+                vs.append(Violation('C20-window-exceeded', f'{case["dir"]}load, {case["k"]} connection(s): {tot} bytes on the wire in '
+                                    f'[{t1:.3f}, {t2:.3f}] s, allowed {bound:.0f} (limits {changes})', case,
+                                    observed={'bytes': tot, 'from': t1, 'to': t2}, required=f'<= {bound:.0f}'))
+                return vs
+    # no limit at the end: everything still to send goes out at once; positive limit: keeps moving
+    last_at, last_k = changes[-1]
+    total = case['size'] * case['k']
+    moved = sum(b for _, b in log)
+    tail = case['seconds'] - max(last_at, max(case['offsets']))
+    if last_k == 0 and tail >= 1.0 and moved < total:
+        vs.append(Violation('C20-unlimited-throttled', f'limit lifted at {last_at}s but only {moved} of {total} bytes moved '
+                            f'{tail:.1f}s later', case, observed={'moved': moved, 'done': res['done']}))
+    if last_k > 0 and tail >= 3.0 and moved < total:
+        after = sum(b for t, b in log if t >= max(last_at, max(case['offsets'])) + 1.0)
+        expect = 0.5 * last_k * 1024 * (tail - 1.0)
+        if after < min(expect, total - moved + after) * 0.5:
+            vs.append(Violation('C20-starved', f'limit {last_k} KiB/s for the last {tail:.1f}s but only {after} bytes moved in it', case,
+                                observed={'moved_after': after}))
+    return vs
+
+
+def _gen_wire(rng: random.Random) -> dict:
+    k = rng.randint(1, 3)
+    lims = [0, 1, 5, 10, 50, 200, 1000]
+    start = rng.choice(lims)
+    nchg = rng.choice([0, 1, 1, 2, 3])
+    # change instants sit between the 10 ms polling grid points of the connections (offsets 0 / 1 ms / 0.3 s)
+    ats = sorted(rng.choice([0.2, 0.5, 1.0, 1.5, 2.5, 4.0]) + rng.randrange(30) * 0.01 + 0.005 for _ in range(nchg))
+    changes = [[round(a, 3), rng.choice(lims)] for a in ats]
+    return {'kind': 'wire', 'dir': rng.choice(['up', 'down']), 'k': k, 'start': start, 'changes': changes,
+            'size': rng.choice([2048, 65536, 524288, 4 * 1024 * 1024]), 'seconds': (ats[-1] if ats else 1.0) + rng.choice([1.5, 3.5, 6.0]),
+            'offsets': [rng.choice([0, 0, 0.001, 0.3]) for _ in range(k)]}
+
+
+WIRE_WITNESSES = [
+    {'kind': 'wire', 'dir': 'up', 'k': 1, 'start': 200, 'changes': [[1.0, 10]], 'size': 4 * 1024 * 1024, 'seconds': 4.5, 'offsets': [0]},
+    {'kind': 'wire', 'dir': 'up', 'k': 2, 'start': 0, 'changes': [[0.5, 10]], 'size': 4 * 1024 * 1024, 'seconds': 4.0, 'offsets': [0, 0]},
+    {'kind': 'wire', 'dir': 'down', 'k': 1, 'start': 200, 'changes': [[1.0, 10]], 'size': 4 * 1024 * 1024, 'seconds': 4.5, 'offsets': [0]},
+    {'kind': 'wire', 'dir': 'up', 'k': 1, 'start': 10, 'changes': [[1.0, 0]], 'size': 524288, 'seconds': 3.0, 'offsets': [0]},
+]
+
+
+def _eval_wire(case):
+    try:
+        return _run_wire(case)
+    except Exception as e:       # noqa: BLE001
+        return {'exc': f'{type(e).__name__}: {e}'}
 
 
 def _ticks(t: float):
@@ -202,6 +461,15 @@ def _parse_obs(o: str):
             'queue': [] if parts[6] == '-' else [int(x) for x in parts[6].split(',')]}
 
 
+def _polls_needed(q: int, gap_ticks: float) -> int:
+    """Empty polls (at least `gap_ticks`/1024 s apart) after which the holder of the lock is granted q tokens at the
+    smallest limit (1 KiB/s): each credits at least floor((1024 - (q - 1)) * gap) tokens. 16 + 1 for the constants of
+    the pinned source (q = 128, 10 ms); recomputed from the constants the code has now, so that a retuned quantum or
+    sleep interval moves the bound instead of raising an alarm. 0: no progress is guaranteed at all."""
+    gain = int((1024 - (q - 1)) * gap_ticks // 1024)
+    return 0 if gain <= 0 else -(-q // gain) + 1
+
+
 def _monitor(case: dict, obs: list) -> list[Violation]:
     """Property statement on the implementation trace: per limiter *object* with limit L, grants in any window
     [t_i, t_j] ≤ L*(t_j - t_i) + L; unlimited grants are immediate; with disciplined polls every request is
@@ -214,6 +482,7 @@ def _monitor(case: dict, obs: list) -> list[Violation]:
     n_objs = 0
     prev_bucket = {}
     waiting = {}        # pid → [object, holder polls seen since it arrived, waiters ahead at arrival]
+    need = _polls_needed(rl.LimitedRateLimiter.MIN_BUCKET_SIZE, 10)      # disciplined polls are >= 10 ticks apart
     for op, o in zip(case['ops'], obs):
         if op[0] == 'new':
             now = op[2]
@@ -255,7 +524,7 @@ def _monitor(case: dict, obs: list) -> list[Violation]:
                 waiting.pop(p, None)
             if case.get('disciplined'):
                 for p, (woi, polls, ahead) in waiting.items():
-                    if polls > 17 * (ahead + 1) + 1:
+                    if need and polls > need * (ahead + 1) + 1:
                         vs.append(Violation('C20-starved', f'request of poller {p} not served after {polls} disciplined '
                                             f'holder polls of object {woi} ({ahead} waiters were ahead of it)', case))
                         waiting = {}
@@ -290,7 +559,11 @@ def _monitor(case: dict, obs: list) -> list[Violation]:
 def _monitor_free(case: dict, res: dict) -> list[Violation]:
     """Free-running connections (real sleep, virtual time): every request returns within a bounded time."""
     k = case['k']
-    bound = 0.17 * k + 0.05 + case.get('pause', 0)
+    # per waiter ahead in the FIFO: the polls a holder needs at the smallest limit, one sleep interval each
+    # (0.17 s for q = 128 and 10 ms sleeps); no guaranteed gain per poll at all -> only starvation is judged
+    need = _polls_needed(res.get('quantum', 128), res.get('interval', 0.01) * TPS)
+    per = need * res.get('interval', 0.01) if need else case['seconds']
+    bound = per * k + 0.05 + case.get('pause', 0)
     vs = []
     worst = max([w for w in res['max_wait'].values() if w is not None] or [0])
     starved = [i for i, n in res['served'].items() if n <= 1]
@@ -372,7 +645,7 @@ class C20(Property):
     driver_module = 'AioslskVerif.Driver.C20'
     rule = ('op sequences (new/poll/set) over 1..4 pollers, limits {0,1..10000} KiB/s, gaps from 0 to 1 h on a '
             '1/1024 s grid, derived from VERIF_SEED; a case is non-trivial when a limited limiter both granted and '
-            'refused at least once; plus free-running lockstep connections (real sleep under virtual time, monitor only); '
+            'refused at least once; the take_tokens calls are made by the harness or (60 %) by the real send_file / receive_file chunk loops of FILE PeerConnections registered with the Network (one chunk per poll op, bytes on the wire = grant), same exact comparison; plus free-running lockstep connections and whole send_file/receive_file transfers with limit changes mid-transfer (real sleep under virtual time, monitor only); '
             'distinct = distinct canonical op list')
     assumptions = [
         'time.monotonic is monotone; clock readings restricted to multiples of 1/1024 s where the float '
@@ -381,7 +654,7 @@ class C20(Property):
     ]
     modelled = ('rate_limiter.py (create_limiter, refill, take_tokens loop with its FIFO lock, add_tokens, copy_tokens), '
                 'Network.set_upload_speed_limit / set_download_speed_limit; not modelled: float rounding, the '
-                'send_file/receive_file byte loops (C04)')
+                'send_file/receive_file byte loops (C04; here they are exercised with run-time limit changes, monitor only)')
 
     def regenerate(self):
         return [rate_constants.generate(common.REPO, common.LEAN)]
@@ -389,8 +662,10 @@ class C20(Property):
     def correspondence(self, seed, tier, model_ok, widen=1):
         res = KResult()
         rng = random.Random(f'C20-{seed}')
-        n = (400 if tier == 'quick' else 6000) * widen
+        n = (400 if tier == 'quick' else 40000) * widen
         cases = [WITNESS] + [_gen_case(rng, rng.choice([8, 30, 80, 200])) for _ in range(n)]
+        for c in cases[1:]:               # who calls take_tokens: the harness, or the real chunk loops of FILE connections
+            c['via'] = rng.choice(['direct', 'direct', 'send_file', 'send_file', 'receive_file'])
         impl = common.parallel_map(_eval_case, cases)
         model = None
         if model_ok:
@@ -406,9 +681,10 @@ class C20(Property):
         for i, c in enumerate(cases):
             res.evaluations += 1
             res.count('kind:' + c['kind'])
+            res.count('via:' + c.get('via', 'direct'))
             res.count('ops', len(c['ops']))
             io = impl[i]
-            if any(o.startswith('EXC') or o.startswith('sleep-args') for o in io):
+            if any(o.startswith('EXC') or o.startswith('sleep-args') or o.startswith('chunk-loop-ended') for o in io):
                 res.count('impl-error')
                 res.violations.append(Violation('C20-impl-error', 'limiter raised / slept a wrong interval', c, observed=io[-1]))
                 continue
@@ -431,7 +707,7 @@ class C20(Property):
             if len(res.samples) < 3 and len(c['ops']) < 12:
                 res.samples.append({'case': c, 'impl': io})
         # free-running lockstep connections: monitor only (real asyncio.sleep under virtual time)
-        nf = (10 if tier == 'quick' else 200) * widen
+        nf = (10 if tier == 'quick' else 1200) * widen
         fcases = FREE_WITNESSES + [_gen_free(rng) for _ in range(nf)]
         fout = common.parallel_map(_eval_free, fcases, chunksize=1)
         for c, r in zip(fcases, fout):
@@ -442,9 +718,25 @@ class C20(Property):
                 res.violations.append(Violation('C20-impl-error', r['exc'], c, observed=r))
             else:
                 res.violations += _monitor_free(c, r)
+        # real send_file / receive_file on FILE connections with limit changes at run time: monitor only
+        nw = (24 if tier == 'quick' else 2500) * widen
+        wcases = WIRE_WITNESSES + [_gen_wire(rng) for _ in range(nw)]
+        wout = common.parallel_map(_eval_wire, wcases, chunksize=1)
+        for c, r in zip(wcases, wout):
+            res.evaluations += 1
+            res.count('kind:wire:' + c['dir'])
+            res.count('wire-limit-changes', len(c['changes']))
+            res.nontrivial_keys.add(common.sha(c))
+            if 'exc' in r:
+                res.violations.append(Violation('C20-impl-error', r['exc'], c, observed=r))
+            else:
+                res.violations += _monitor_wire(c, r)
         return res
 
     def replay(self, case):
+        if case.get('kind') == 'wire':
+            r = _eval_wire(case)
+            return [Violation('C20-impl-error', r['exc'], case)] if 'exc' in r else _monitor_wire(case, r)
         if case.get('kind') == 'free':
             return _monitor_free(case, _eval_free(case))
         return _monitor(case, _eval_case(case))
